@@ -97,6 +97,17 @@ def module_descs(draw, with_apps=True, max_depth=3, sym_pool=('a', 'b', 'c', 'A'
                 app = S.draw_app(draw, cfg, depth=draw(st.integers(1, 2)), entries=S.light_catalogue(), arg_depth=1)
                 c = {'kind': kind, 'app': app.to_json()}
                 if kind == 'univgen': c['var'] = draw(st.sampled_from(cfg.ids))
+                directed = None
+                if kind == 'appinst' and draw(st.integers(0, 3)) == 0:
+                    # directed: a pending substitution on X_n (x_n) over phi_k, and phi_k instantiated by a binder of the SAME number
+                    # in the other namespace (exists x_n / mu X_n) with the substituted variable free below it
+                    n_ = draw(st.sampled_from(cfg.ids)); k_ = draw(st.sampled_from(cfg.ids)); sk = draw(st.sampled_from(['ss', 'es']))
+                    pend = (sk, n_, R.MV(k_), draw_axiom(draw, cfg, 0))
+                    if R.well_formed(pend):
+                        ent = next(e for e in S.catalogue() if e.name == 'prop1_inst')
+                        app = S.App(ent, {100: pend, 101: draw_axiom(draw, cfg, 0)}, [])
+                        c = {'kind': kind, 'app': app.to_json()}
+                        directed = [k_, R.EX(n_, R.I(R.S(n_), R.E(n_))) if sk == 'ss' else R.MU(n_, R.A(R.S(n_), R.E(n_)))]
                 if kind == 'appinst':
                     # a lemma application (whose arguments may carry pending substitutions with schematic plugs) instantiated
                     # further through dynamic_inst, by admissible values: a metavariable with the merged constraints or a
@@ -114,6 +125,8 @@ def module_descs(draw, with_apps=True, max_depth=3, sym_pool=('a', 'b', 'c', 'A'
                         else:
                             val = gens.draw_admissible_concrete(draw, merged, cfg, 1)
                         delta.append([k, gens.sugared_to_json(val)])
+                    if directed is not None:
+                        delta = [[directed[0], gens.sugared_to_json(directed[1])]]
                     c['delta'] = delta
                     # domain: capture-free instantiations with a documented-well-formed result (a capturing one is refused by
                     # the checker by design; the toolkit has no capture check - outside C02 as for 'quant')
